@@ -407,30 +407,74 @@ pub struct Area {
     pub exec: fn(&[&str]) -> (String, String),
 }
 
+/// Seconds after which a single case counts as a hang of the implementation.
+pub const CASE_TIMEOUT_S: u64 = 30;
+
 pub fn run_cases(area: &Area, cmds: &[String], dir: &str, dist: &Dist) {
+    use std::sync::atomic::{AtomicU64, AtomicUsize, Ordering};
+    use std::sync::{Arc, Mutex};
     std::fs::create_dir_all(dir).unwrap();
     let f = |n: &str| io::BufWriter::new(std::fs::File::create(format!("{dir}/{n}")).unwrap());
     let (mut cases, mut imp, mut oracle) = (f("cases.txt"), f("impl.txt"), f("oracle.txt"));
-    // run in parallel over 16 threads, keep order
+    // 16 worker threads; a watchdog replaces a worker that sits on one case for too long (the
+    // stuck thread cannot be killed: it is abandoned and the process exits at the end).
     let n = cmds.len();
-    let results: Vec<std::sync::Mutex<Option<(String, String)>>> = (0..n).map(|_| std::sync::Mutex::new(None)).collect();
-    let next = std::sync::atomic::AtomicUsize::new(0);
-    std::thread::scope(|s| {
-        for _ in 0..16 {
-            s.spawn(|| loop {
-                let i = next.fetch_add(1, std::sync::atomic::Ordering::SeqCst);
-                if i >= n {
+    let cmds: Arc<Vec<String>> = Arc::new(cmds.to_vec());
+    let results: Arc<Vec<Mutex<Option<(String, String)>>>> = Arc::new((0..n).map(|_| Mutex::new(None)).collect());
+    let next = Arc::new(AtomicUsize::new(0));
+    let done = Arc::new(AtomicUsize::new(0));
+    let exec = area.exec;
+    let now = || std::time::SystemTime::now().duration_since(std::time::UNIX_EPOCH).unwrap().as_secs();
+    // per worker: (case index + 1, start time); 0 = idle/finished
+    let slots: Arc<Mutex<Vec<Arc<(AtomicUsize, AtomicU64)>>>> = Arc::new(Mutex::new(Vec::new()));
+    let spawn_worker = {
+        let (cmds, results, next, done, slots) = (cmds.clone(), results.clone(), next.clone(), done.clone(), slots.clone());
+        move || {
+            let slot = Arc::new((AtomicUsize::new(0), AtomicU64::new(0)));
+            slots.lock().unwrap().push(slot.clone());
+            let (cmds, results, next, done) = (cmds.clone(), results.clone(), next.clone(), done.clone());
+            std::thread::Builder::new().stack_size(64 << 20).spawn(move || loop {
+                let i = next.fetch_add(1, Ordering::SeqCst);
+                if i >= cmds.len() {
+                    slot.0.store(0, Ordering::SeqCst);
                     break;
                 }
+                slot.1.store(now(), Ordering::SeqCst);
+                slot.0.store(i + 1, Ordering::SeqCst);
                 let parts: Vec<&str> = cmds[i].split(' ').collect();
-                let r = match catch_unwind(AssertUnwindSafe(|| (area.exec)(&parts))) {
+                let r = match catch_unwind(AssertUnwindSafe(|| exec(&parts))) {
                     Ok(r) => r,
                     Err(_) => ("HARNESS-PANIC".to_string(), "FAIL harness panic".to_string()),
                 };
-                *results[i].lock().unwrap() = Some(r);
-            });
+                let mut g = results[i].lock().unwrap();
+                if g.is_none() {
+                    *g = Some(r);
+                    done.fetch_add(1, Ordering::SeqCst);
+                }
+                slot.0.store(0, Ordering::SeqCst);
+            }).unwrap();
         }
-    });
+    };
+    for _ in 0..16 {
+        spawn_worker();
+    }
+    while done.load(Ordering::SeqCst) < n {
+        std::thread::sleep(std::time::Duration::from_millis(50));
+        let t = now();
+        let stuck: Vec<usize> = slots.lock().unwrap().iter().filter_map(|s| {
+            let c = s.0.load(Ordering::SeqCst);
+            if c > 0 && t.saturating_sub(s.1.load(Ordering::SeqCst)) > CASE_TIMEOUT_S { s.0.store(0, Ordering::SeqCst); Some(c - 1) } else { None }
+        }).collect();
+        for i in stuck {
+            let mut g = results[i].lock().unwrap();
+            if g.is_none() {
+                *g = Some(("TIMEOUT".to_string(), format!("FAIL the call did not return within {CASE_TIMEOUT_S} s (hang)")));
+                done.fetch_add(1, Ordering::SeqCst);
+                drop(g);
+                spawn_worker();
+            }
+        }
+    }
     for (i, c) in cmds.iter().enumerate() {
         let (o, v) = results[i].lock().unwrap().take().unwrap();
         writeln!(cases, "{} {}", i, c).unwrap();
@@ -441,4 +485,6 @@ pub fn run_cases(area: &Area, cmds: &[String], dir: &str, dist: &Dist) {
     imp.flush().unwrap();
     oracle.flush().unwrap();
     std::fs::write(format!("{dir}/dist.json"), dist.to_json()).unwrap();
+    // abandoned (stuck) threads must not keep the process alive
+    std::process::exit(0);
 }
